@@ -4,7 +4,8 @@ cd "$(dirname "$0")/.."
 tier=${1:-quick}
 for p in $(python3 -c "import json;print(' '.join(c['property_id'] for c in json.load(open('MANIFEST.json'))['checks']))"); do
   s=$(date +%s)
-  out=$(python3 check.py $p --tier $tier 2>&1); rc=$?
+  extra=""; [ "$tier" = thorough ] && extra="--deadline ${DEADLINE:-1500}"
+  out=$(python3 check.py $p --tier $tier $extra 2>&1); rc=$?
   e=$(date +%s)
   echo "$p rc=$rc $((e-s))s :: $(echo "$out" | grep -E "^$p $tier:|VIOLATION|HARNESS" | head -2 | tr '\n' ' ')"
 done
